@@ -155,6 +155,22 @@ CLAIMS = {
         technique="Lean 4 proof (linear extent arithmetic per axis) + differential correspondence with "
                   "whole-array oracle",
         ref="DESIGN.md §6 C06"),
+    "C08": dict(
+        text="Lean 4 theorems on the integer part of fill_scales_for_dyadic_pyramid (sizes, factors, anisotropy "
+             "factors with the repaired reduction loop, chunk exponents, scale count with the repaired delay "
+             "sign): consecutive scales differ by factor 1 (delayed axis) or 2 with new = ceil(old/2); chunk "
+             "exponents add up to 3e±1 for EVERY delay triple, level and target exponent (incl. target 1 and "
+             "extreme anisotropy); the last scale fits in two target-size chunks per axis for all sizes. Float "
+             "stage (delays, keys, units) observed: delays compared with exact-rational nearest integers. "
+             "Oracle on the real info: distinct keys, size/resolution relation, power-of-two chunks, isotropy "
+             "bound to the finest axis, acceptance by the encoders (incl. through generate-scales-info main() "
+             "and a re-parsed file) and chunk-size compatibility with the pyramid step; the latter is FALSE "
+             "for three distinct axis delays (known finding F21) and for target chunk size 1 (known finding F28).",
+        note="Trusted: Lean kernel; standard axioms; hand-written model (tie = sampling); libm log2 / float "
+             "products observed, not modelled; key uniqueness is an oracle check, not a theorem.",
+        technique="Lean 4 proof (integer arithmetic, termination measure for the reduction loop) + "
+                  "differential correspondence + structural oracle",
+        ref="DESIGN.md §6 C08"),
 }
 
 ALL = ["C%02d" % i for i in range(1, 21)]
